@@ -82,6 +82,16 @@ VARS = ['a', 'b', 'c1', 'x', 'y_2', 'cnt', 'inst', 'tmp', 'v', 'w9', 'res_', 'Fo
 SETS = ['as', 'bs', 'items', 'xs', 'set1']
 KLS = ['A', 'B', 'C', 'KL', 'A_B', 'OBJ1']
 ATTRS = ['Id', 'N', 'name', 'val', 'Flag', 'x1']
+ENUMERATORS = ATTRS + ['Red', 'MAX']
+# kw_as_identifier_1..4 (grammar `identifier`): attribute / parameter / enumerator names
+KW_AS_NAME = ['across', 'any', 'assign', 'assigner', 'break', 'by', 'class', 'continue', 'control', 'create',
+              'creator', 'delete', 'each', 'event', 'for', 'from', 'generate', 'in', 'instances', 'instance', 'many',
+              'object', 'one', 'related', 'relate', 'select', 'stop', 'to', 'where', 'unrelate', 'using',
+              'bridge', 'cardinality', 'empty', 'false', 'not', 'not_empty', 'send', 'transform', 'true', 'of',
+              'param', 'rcvd_evt', 'selected', 'self', 'and', 'elif', 'else', 'if', 'or', 'return', 'while']
+# kw_as_identifier_1 words that start no statement (grammar `limited_identifier`): variable names
+KW_AS_VARIABLE = ['across', 'any', 'assigner', 'by', 'class', 'creator', 'each', 'event', 'from', 'in', 'instances',
+                  'instance', 'many', 'object', 'one', 'related', 'to', 'where', 'using']
 NSS = ['LOG', 'TIM', 'ARCH', 'E1', 'Color', 'ns_1']
 FUNS = ['f', 'g', 'Get', 'LogInfo', 'do_it', 'op1']
 PARAMS = ['p', 'message', 'n', 'x', 'value']
@@ -104,6 +114,8 @@ class Gen(object):
         self.max_depth = max_depth
         self.max_stmts = max_stmts
         self.empty_clause_blocks = empty_clause_blocks
+        self.kw_names = True           # keywords in name positions
+        self.empty_statements = True   # `;;`
 
     # -- token helpers
     def t(self, kind, lexeme, role='', glue=False):
@@ -116,7 +128,18 @@ class Gen(object):
     def pn(self, kind):
         return self.t(kind, PUNCT[kind])
 
-    def ident(self, pool):
+    def ident(self, pool, limited=False):
+        # a keyword in a NAME position (kw_as_identifier_1..4 of the grammar): `x.to`, `f(from: 1)`, `NS::class`,
+        # a variable called `each`.  The token keeps its keyword type, the tree keeps the spelling as written; role
+        # 'name': never re-spelled (C08 re-spells keywords in keyword role only)
+        if self.kw_names and self.r.random() < 0.12:
+            words = KW_AS_VARIABLE if (limited or pool is VARS) else \
+                KW_AS_NAME if (pool is ATTRS or pool is PARAMS or pool is ENUMERATORS) else None
+            if words:
+                w = self.r.choice(words)
+                name = self.r.choice([w, w, w.upper(), w.capitalize()])
+                self.p.count('kw-as-name')
+                return self.t(w.upper(), name, 'name'), name
         name = self.r.choice(pool)
         return self.t('ID', name), name
 
@@ -215,7 +238,7 @@ class Gen(object):
             ns = r.choice(NSS)
             f = self.t('NAMESPACE', ns)
             self.t('DOUBLECOLON', '::', glue=True)
-            i, nm = self.ident(ATTRS + ['Red', 'MAX'])
+            i, nm = self.ident(ENUMERATORS)
             return En('EnumOrNamedConstantNode', [ns, nm], f, i)
         if k < 0.56:
             i = self.kw('self')
@@ -235,7 +258,7 @@ class Gen(object):
             w = r.choice(['param', 'rcvd_evt'])
             f = self.kw(w)
             self.pn('DOT')
-            i, nm = self.ident(PARAMS)
+            i, nm = self.ident(PARAMS, limited=True)        # param_access : param DOT variable_name
             cur = En('ParamAccessNode', [nm], f, i)
         elif k < 0.22:
             w = r.choice(['self', 'selected'])
@@ -326,9 +349,15 @@ class Gen(object):
         stmts = []
         last = None
         for _ in range(n):
+            if self.empty_statements and self.r.random() < 0.04:
+                last = self.pn('SEMICOLON')              # empty statement in front (`statement : <empty>`)
+                self.p.count('empty-statement')
             s = self.statement(depth)
             stmts.append(s)
             last = self.pn('SEMICOLON')
+            if self.empty_statements and self.r.random() < 0.05:
+                last = self.pn('SEMICOLON')              # empty statement behind
+                self.p.count('empty-statement')
         return En('BlockNode', [En('StatementListNode', stmts)]), last
 
     def statement(self, depth):
@@ -671,8 +700,14 @@ class Gen(object):
     def program(self):
         stmts = []
         for _ in range(self.r.randint(1, self.max_stmts)):
+            if self.empty_statements and self.r.random() < 0.04:
+                self.pn('SEMICOLON')
+                self.p.count('empty-statement')
             stmts.append(self.statement(0))
             self.pn('SEMICOLON')
+            if self.empty_statements and self.r.random() < 0.05:
+                self.pn('SEMICOLON')
+                self.p.count('empty-statement')
         self.p.root = En('BodyNode', [En('BlockNode', [En('StatementListNode', stmts)])])
         return self.p
 
@@ -1251,6 +1286,7 @@ class ExecGen(Gen):
 
     def __init__(self, rng, max_stmts=8, prebuildable=True):
         Gen.__init__(self, rng, 2, max_stmts, False)
+        self.kw_names = False
         self.ints = []          # integer variables in scope
         self.insts = []         # (name, class) possibly empty handles
         self.safe = []          # (name, class) handles known to be non-empty here
@@ -1799,11 +1835,48 @@ class ExecGen(Gen):
             self.end()
         self.p.count('x-effect-' + op)
 
+    def x_misc(self):
+        """constructs whose interpreter / prebuilder handlers hold no keyword themselves but must run - once, and the
+        same way - under every spelling of the keywords around them: `create object instance of C;` (no variable),
+        real and string literals, an enumerator, an array element"""
+        r = self.r
+        k = r.random()
+        if k < 0.3:
+            self.kw('create'); self.kw('object'); self.kw('instance'); self.kw('of'); self.idt('C'); self.end()
+            self.p.count('x-create-no-variable')
+        elif k < 0.55:
+            v = self.name('q')
+            self.idt(v); self.pn('EQUAL'); self.t('FRACTION', r.choice(['2.5', '0.5', '1.25', '3.'])); self.pn('TIMES')
+            self.num(r.choice([1, 2, 4])); self.end()
+            self.kw('if'); self.pn('LPAREN'); self.idt(v); self.pn(r.choice(['GT', 'LESSTHAN', 'GE']))
+            self.t('FRACTION', '2.0'); self.pn('RPAREN'); self.x_acc(); self.end_tok('if'); self.end()
+            self.p.count('x-real')
+        elif k < 0.8:
+            v = self.name('t')
+            self.idt(v); self.pn('EQUAL'); self.t('STRING', r.choice(['"ab"', '""', '"a b"'])); self.end()
+            self.kw('if'); self.pn('LPAREN'); self.idt(v); self.pn(r.choice(['DOUBLEEQUAL', 'NOTEQUAL']))
+            self.t('STRING', '"ab"'); self.pn('RPAREN'); self.x_acc(); self.end_tok('if'); self.end()
+            self.p.count('x-string')
+        elif k < 0.9:
+            self.kw('if'); self.pn('LPAREN'); self.t('NAMESPACE', 'Color'); self.t('DOUBLECOLON', '::', glue=True)
+            self.idt(r.choice(['Red', 'Green'])); self.pn(r.choice(['DOUBLEEQUAL', 'GT'])); self.num(1)
+            self.pn('RPAREN'); self.x_acc(); self.end_tok('if'); self.end()
+            self.p.count('x-enumerator')
+        else:
+            v = self.name('z')
+            i = r.choice([0, 1, 2])
+            self.idt(v); self.pn('LSQBR'); self.num(i); self.pn('RSQBR'); self.pn('EQUAL'); self.int_expr(1); self.end()
+            self.idt('acc'); self.pn('EQUAL'); self.idt('acc'); self.pn('PLUS'); self.idt(v); self.pn('LSQBR')
+            self.num(i); self.pn('RSQBR'); self.end()
+            self.p.count('x-array')
+
     def x_block(self, depth):
         r = self.r
         for _ in range(r.choice([1, 1, 2, 3]) if depth else r.randint(3, self.max_stmts)):
             k = r.random()
-            if k < 0.16:
+            if k < 0.07:
+                self.x_misc()
+            elif k < 0.16:
                 self.x_select_from()
             elif k < 0.28:
                 self.x_select_related()
@@ -1953,6 +2026,14 @@ class OpGen(ExecGen):
 
     def o_transform(self):
         r = self.r
+        if r.random() < 0.3:
+            # class-based operation: the keyword `transform` makes `A::Count()` a class invocation
+            v = self.name('n')
+            self.kw('transform'); self.idt(v); self.pn('EQUAL'); self.t('NAMESPACE', 'A')
+            self.t('DOUBLECOLON', '::', glue=True); self.idt('Count'); self.pn('LPAREN'); self.pn('RPAREN'); self.end()
+            self.ints.append(v)
+            self.p.count('o-transform-class')
+            return
         if r.random() < 0.5:
             v = self.name('n')
             self.kw('transform'); self.idt(v); self.pn('EQUAL'); self.self_kw(); self.pn('DOT'); self.idt('Bump')
@@ -2021,7 +2102,7 @@ class OpGen(ExecGen):
         self.ints.append('acc')
         pool = [self.o_relate_self, self.o_nav_self, self.o_self_attr, self.o_using, self.o_bridge, self.o_transform,
                 self.o_generate, self.o_create_event, self.o_rcvd, self.o_stop, self.x_effect, self.x_acc,
-                self.x_select_related, self.x_assign_int]
+                self.x_select_related, self.x_assign_int, self.x_misc]
         if self.no_param:
             pool.remove(self.o_rcvd)
         n = r.randint(3, self.max_stmts + 2)
